@@ -271,9 +271,9 @@ func SigOracleEddsa(pub obs.Pt, msg *big.Int, fullBytesLen int, sigs []*common.S
 	if len(ref.Signature) != 64 {
 		return fmt.Sprintf("signature has %d bytes", len(ref.Signature))
 	}
-	if !bytes.Equal(ref.Signature, append(append([]byte{}, ref.R...), ref.S...)) {
-		return "Signature != R||S"
-	}
+	// (the auxiliary R and S fields hold the same two numbers as big-endian integers; C02 only speaks of
+	// the 64-byte Signature, so they are not judged - an earlier version of this oracle compared them
+	// byte-wise with Signature and raised a false alarm)
 	want := msg.Bytes()
 	if fullBytesLen > 0 && len(want) < fullBytesLen {
 		want = append(make([]byte, fullBytesLen-len(want)), want...)
